@@ -117,6 +117,14 @@ class World:
                 seen_f += 1
                 progressed = True
                 self.reg(f.graph)
+                # default values of the function's own attribute parameters may be graphs
+                for a in f.attributes.values():
+                    if isinstance(a, ir.Attr) and not a.is_ref() and a.value is not None:
+                        if a.type == ir.AttributeType.GRAPH:
+                            self.reg(a.value)
+                        elif a.type == ir.AttributeType.GRAPHS:
+                            for g_ in a.value:
+                                self.reg(g_)
             while seen_g < len(self.graphs):
                 g = self.graphs[seen_g]
                 seen_g += 1
